@@ -53,6 +53,7 @@ import (
 	"reflect"
 	"runtime"
 	"slices"
+	"strings"
 	_ "unsafe"
 
 	"golang.org/x/tools/go/ssa"
@@ -93,6 +94,7 @@ type interpreter struct {
 	fnsSeen            map[string]bool
 	intrSeen           map[string]bool
 	inited             map[*ssa.Package]bool
+	extGlobals         map[*ssa.Global]*value
 	curFrame           *frame
 	curInstr           ssa.Instruction
 }
@@ -254,8 +256,8 @@ func visitInstr(fr *frame, instr ssa.Instruction) continuation {
 
 	case *ssa.Store:
 		addr := fr.get(instr.Addr).(*value)
-		if fr.i.ps.trackW {
-			if g, ok := instr.Addr.(*ssa.Global); ok && fr.i.eng.isRepoPkg(g.Pkg) {
+		if fr.i.ps.gcells != nil {
+			if g, ok := instr.Addr.(*ssa.Global); ok && fr.i.eng.isRepoPkg(g.Pkg) && !strings.Contains(g.Pkg.Pkg.Path(), "zzverif") {
 				fr.i.ps.noteWrite("store to package variable " + g.String())
 			} else if fr.i.ps.gcells[addr] {
 				fr.i.ps.noteWrite("store into state reachable from a package variable")
@@ -383,7 +385,7 @@ func visitInstr(fr *frame, instr ssa.Instruction) continuation {
 		v := fr.get(instr.Value)
 		switch m := m.(type) {
 		case *omap:
-			if fr.i.ps.trackW && fr.i.ps.gmaps[m] {
+			if fr.i.ps.gmaps != nil && fr.i.ps.gmaps[m] {
 				fr.i.ps.noteWrite("update of a map reachable from a package variable")
 			}
 			m.insert(key, v)
